@@ -688,6 +688,32 @@ def Decoder_More.body (fuel : Nat) : Decoder_More.St → Go.Out Decoder_More.St 
 def Decoder_More (fuel : Nat) (d_p : Bytes) (d_offset : BitVec 64) (d_mode : BitVec 64) (d_keyStart : BitVec 64) (d_keyEnd : BitVec 64) : Go.Out Decoder_More.St Decoder_More.R :=
   Decoder_More.body fuel { d_p := d_p, d_offset := d_offset, d_mode := d_mode, d_keyStart := d_keyStart, d_keyEnd := d_keyEnd }
 
+/-! ### `Decoder.Seek` (/repo/decoder.go:92:1) -/
+
+structure Decoder_Seek.St where
+  d_p : Bytes
+  d_offset : BitVec 64
+  d_mode : BitVec 64
+  d_keyStart : BitVec 64
+  d_keyEnd : BitVec 64
+  offset : BitVec 64
+  whence : BitVec 64
+  pos : BitVec 64 := 0#64
+
+abbrev Decoder_Seek.R := BitVec 64 × Go.Err
+
+/-- the body of `Decoder_Seek`, statement by statement -/
+def Decoder_Seek.body (fuel : Nat) : Decoder_Seek.St → Go.Out Decoder_Seek.St Decoder_Seek.R :=
+  (Go.seq (Go.seq (fun s => .next { s with pos := s.offset })
+    (Go.seq (fun s => if ((s.whence == 0#64)) then Go.skip s else if ((s.whence == 1#64)) then (fun s => .next { s with pos := (s.pos + s.d_offset) }) s else if ((s.whence == 2#64)) then (fun s => .next { s with pos := (s.pos + (BitVec.ofNat 64 s.d_p.length)) }) s else (fun s => .ret (s.d_offset, (Go.Err.other "errorf")) s) s)
+    (Go.seq (fun s => if ((BitVec.slt s.pos 0#64) || (BitVec.slt (BitVec.ofNat 64 s.d_p.length) s.pos)) then (fun s => .ret (s.d_offset, (Go.Err.other "errorf")) s) s else Go.skip s)
+    (Go.seq (fun s => .next { s with d_offset := s.pos })
+    (fun s => .ret (s.d_offset, Go.Err.nil) s)))))
+    Go.missingReturn)
+
+def Decoder_Seek (fuel : Nat) (d_p : Bytes) (d_offset : BitVec 64) (d_mode : BitVec 64) (d_keyStart : BitVec 64) (d_keyEnd : BitVec 64) (offset : BitVec 64) (whence : BitVec 64) : Go.Out Decoder_Seek.St Decoder_Seek.R :=
+  Decoder_Seek.body fuel { d_p := d_p, d_offset := d_offset, d_mode := d_mode, d_keyStart := d_keyStart, d_keyEnd := d_keyEnd, offset := offset, whence := whence }
+
 /-! ### `Encoder.EncodeBool` (/repo/encoder.go:25:1) -/
 
 structure Encoder_EncodeBool.St where
